@@ -2,6 +2,9 @@ import RulioProofs.StateClosure
 import RulioProofs.StateMono
 import RulioProofs.StateWF
 
+set_option linter.unusedSimpArgs false
+set_option linter.unusedVariables false
+
 /-! # C08 assembly: termination, exactness, durability for the public `rem` -/
 
 /-! ## errors of `unindexRule` -/
@@ -93,7 +96,7 @@ theorem unindexOf_ok_of {s : St} {id : String} {fact : Obj} (h : unindexErr id f
 /-! ## with `UnindexOK` the only possible error is the fuel error -/
 
 theorem ierr (now : Int) : ∀ f : Nat,
-    (∀ s i, IInv s now → UnindexOK s → isVar i = false → ∀ e, (St.irem f s i now).2 = .error e → e = "fuel") ∧
+    (∀ s i, IInvBut s i now → UnindexOK s → isVar i = false → ∀ e, (St.irem f s i now).2 = .error e → e = "fuel") ∧
     (∀ s i, IInv s now → UnindexOK s → isVar i = false → ∀ e, (St.ideps f s i now).2 = .error e → e = "fuel") ∧
     (∀ s L, IInv s now → UnindexOK s → (∀ i, i ∈ L → isVar i = false) →
       ∀ e, (St.iremAll f s L now).2 = .error e → e = "fuel") := by
@@ -122,7 +125,7 @@ theorem ierr (now : Int) : ∀ f : Nat,
           rw [hr] at h
           simp only [Except.map] at h
           injection h with h; subst h
-          exact ih2 _ i (hinv.le hle) (hle.unindexOK hun) hi _ hr
+          exact ih2 _ i (hinv.idel (unindexOf_same hu) fact) (hle.unindexOK hun) hi _ hr
         | ok u => rw [hr] at h; cases h
       | none =>
         rw [hg] at h
@@ -132,7 +135,7 @@ theorem ierr (now : Int) : ∀ f : Nat,
           rw [hr] at h
           simp only [Except.map] at h
           injection h with h; subst h
-          exact ih2 _ i hinv hun hi _ hr
+          exact ih2 _ i (hinv.absent hg) hun hi _ hr
         | ok u => rw [hr] at h; cases h
     · intro s i hinv hun hi e h
       rw [St.ideps_succ] at h
@@ -158,7 +161,7 @@ theorem ierr (now : Int) : ∀ f : Nat,
           rw [hr] at h
           simp only at h
           injection h with h; subst h
-          exact ih1 s i hinv hun (hL i (by simp)) _ hr
+          exact ih1 s i (hinv.but i) hun (hL i (by simp)) _ hr
         | ok b =>
           rw [hr] at h
           simp only at h
@@ -167,7 +170,7 @@ theorem ierr (now : Int) : ∀ f : Nat,
 
 /-- linear state: the only possible error of the cascade is the fuel error -/
 theorem lerr (now : Int) : ∀ f : Nat,
-    (∀ s i, CInv s now → isVar i = false → ∀ e, (St.lrem f s i now).2 = .error e → e = "fuel") ∧
+    (∀ s i, CInvBut s i now → isVar i = false → ∀ e, (St.lrem f s i now).2 = .error e → e = "fuel") ∧
     (∀ s L, CInv s now → (∀ i, i ∈ L → isVar i = false) → ∀ e, (St.lremAll f s L now).2 = .error e → e = "fuel") := by
   intro f
   induction f with
@@ -182,7 +185,7 @@ theorem lerr (now : Int) : ∀ f : Nat,
       rw [St.lrem_succ] at h
       simp only [hi, Bool.false_eq_true, ↓reduceIte] at h
       have hle : StLe s (s.ldel i) := ldel_le s i
-      have hinv0 := hinv.le hle
+      have hinv0 := hinv.ldel
       obtain ⟨hs1, _⟩ := lsearch_dep hinv0.nexp hi f
       rcases hs1 with hs1 | ⟨found, hs1, hmap⟩
       · rw [hs1] at h; simp only at h; injection h with h; exact h.symm
@@ -211,7 +214,7 @@ theorem lerr (now : Int) : ∀ f : Nat,
           rw [hr] at h
           simp only at h
           injection h with h; subst h
-          exact ih1 s i hinv (hL i (by simp)) _ hr
+          exact ih1 s i (hinv.but i) (hL i (by simp)) _ hr
         | ok b =>
           rw [hr] at h
           simp only at h
@@ -220,10 +223,15 @@ theorem lerr (now : Int) : ∀ f : Nat,
 
 /-! ## the public `rem` -/
 
-theorem WF.iinv {s : St} (h : WF s) (hk : s.kind = .indexed) {now : Int} (hne : NoneExpired s now) : IInv s now :=
+theorem WF.iinv {s : St} (h : WF s) (hk : s.kind = .indexed) {now : Int} {i : String} (hne : NoneExpiredBut s i now) :
+    IInvBut s i now :=
   ⟨⟨h.keys, hne, h.ids⟩, h.tiok hk, h.tinodup hk⟩
 
-theorem WF.cinv {s : St} (h : WF s) {now : Int} (hne : NoneExpired s now) : CInv s now := ⟨h.keys, hne, h.ids⟩
+theorem WF.cinv {s : St} (h : WF s) {now : Int} {i : String} (hne : NoneExpiredBut s i now) : CInvBut s i now :=
+  ⟨h.keys, hne, h.ids⟩
+
+theorem NoneExpired.but {s : St} {now : Int} (h : NoneExpired s now) (i : String) : NoneExpiredBut s i now :=
+  fun e he _ => h e he
 
 theorem irem_var_ne_fuel (s : St) (id : String) (now : Int) (hv : isVar id = true) (f : Nat) :
     (St.irem (f + 2) s id now).2 ≠ .error "fuel" := by
@@ -240,7 +248,7 @@ theorem lrem_var_ne_fuel (s : St) (id : String) (now : Int) (hv : isVar id = tru
     (St.lrem (f + 1) s id now).2 ≠ .error "fuel" := by
   rw [St.lrem_succ]; simp [hv]
 
-theorem irem_ne_fuel {s : St} {now : Int} (h : WF s) (hk : s.kind = .indexed) (hne : NoneExpired s now) (id : String)
+theorem irem_ne_fuel {s : St} {now : Int} (h : WF s) (hk : s.kind = .indexed) (id : String) (hne : NoneExpiredBut s id now)
     {g : Nat} (hg : 3 * s.facts.length + tiWidth s.ti + 6 ≤ g) : (St.irem g s id now).2 ≠ .error "fuel" := by
   cases hv : isVar id with
   | true =>
@@ -248,7 +256,7 @@ theorem irem_ne_fuel {s : St} {now : Int} (h : WF s) (hk : s.kind = .indexed) (h
     exact irem_var_ne_fuel s id now hv g'
   | false => exact (iterm now g).1 s id (h.iinv hk hne) hv (Or.inr (Or.inr hg))
 
-theorem lrem_ne_fuel {s : St} {now : Int} (h : WF s) (hne : NoneExpired s now) (id : String)
+theorem lrem_ne_fuel {s : St} {now : Int} (h : WF s) (id : String) (hne : NoneExpiredBut s id now)
     {g : Nat} (hg : 2 * s.facts.length + 4 ≤ g) : (St.lrem g s id now).2 ≠ .error "fuel" := by
   cases hv : isVar id with
   | true =>
@@ -256,39 +264,39 @@ theorem lrem_ne_fuel {s : St} {now : Int} (h : WF s) (hne : NoneExpired s now) (
     exact lrem_var_ne_fuel s id now hv g'
   | false => exact (lterm now g).1 s id (h.cinv hne) hv (Or.inr (Or.inr hg))
 
-theorem remWith_ne_fuel {s : St} {now : Int} (h : WF s) (hne : NoneExpired s now) (id : String)
+theorem remWith_ne_fuel {s : St} {now : Int} (h : WF s) (id : String) (hne : NoneExpiredBut s id now)
     {g : Nat} (hg : s.fuelOK ≤ g) : (s.remWith g id now).2 ≠ .error "fuel" := by
   simp only [St.remWith]
   simp only [St.fuelOK] at hg
   cases hk : s.kind with
-  | indexed => exact irem_ne_fuel h hk hne id (by omega)
-  | linear => exact lrem_ne_fuel h hne id (by omega)
+  | indexed => exact irem_ne_fuel h hk id hne (by omega)
+  | linear => exact lrem_ne_fuel h id hne (by omega)
 
 theorem remOK_eq_remWith (s : St) (id : String) (now : Int) : s.remOK id now = s.remWith s.fuelOK id now := rfl
 
-theorem remWith_mono {s : St} {now : Int} (h : WF s) (hne : NoneExpired s now) (id : String)
+theorem remWith_mono {s : St} {now : Int} (h : WF s) (id : String) (hne : NoneExpiredBut s id now)
     {g : Nat} (hg : s.fuelOK ≤ g) : s.remWith g id now = s.remOK id now := by
-  have hnf := remWith_ne_fuel h hne id (Nat.le_refl s.fuelOK)
+  have hnf := remWith_ne_fuel h id hne (Nat.le_refl s.fuelOK)
   simp only [St.remWith, St.remOK] at hnf ⊢
   cases hk : s.kind with
   | indexed => rw [hk] at hnf; exact irem_mono hne hnf g hg
   | linear => rw [hk] at hnf; exact lrem_mono hnf g hg
 
 /-- for the linear state the original budget `St.fuel` is already enough -/
-theorem rem_eq_remOK_linear {s : St} {now : Int} (h : WF s) (hk : s.kind = .linear) (hne : NoneExpired s now)
-    (id : String) : s.rem id now = s.remOK id now := by
+theorem rem_eq_remOK_linear {s : St} {now : Int} (h : WF s) (hk : s.kind = .linear) (id : String)
+    (hne : NoneExpiredBut s id now) : s.rem id now = s.remOK id now := by
   simp only [St.rem, St.remOK, hk]
-  have hnf : (St.lrem s.fuel s id now).2 ≠ .error "fuel" := lrem_ne_fuel h hne id (by simp only [St.fuel]; omega)
+  have hnf : (St.lrem s.fuel s id now).2 ≠ .error "fuel" := lrem_ne_fuel h id hne (by simp only [St.fuel]; omega)
   exact (lrem_mono hnf s.fuelOK (by simp only [St.fuel, St.fuelOK]; omega)).symm
 
 /-- for the indexed state the original budget is enough as long as the index lists are not too long -/
-theorem rem_eq_remOK_indexed {s : St} {now : Int} (h : WF s) (hk : s.kind = .indexed) (hne : NoneExpired s now)
-    (hw : tiWidth s.ti ≤ 3 * s.facts.length + 6) (id : String) : s.rem id now = s.remOK id now := by
+theorem rem_eq_remOK_indexed {s : St} {now : Int} (h : WF s) (hk : s.kind = .indexed) (id : String)
+    (hne : NoneExpiredBut s id now) (hw : tiWidth s.ti ≤ 3 * s.facts.length + 6) : s.rem id now = s.remOK id now := by
   simp only [St.rem, St.remOK, hk]
-  have hnf : (St.irem s.fuel s id now).2 ≠ .error "fuel" := irem_ne_fuel h hk hne id (by simp only [St.fuel]; omega)
+  have hnf : (St.irem s.fuel s id now).2 ≠ .error "fuel" := irem_ne_fuel h hk id hne (by simp only [St.fuel]; omega)
   exact (irem_mono hne hnf s.fuelOK (by simp only [St.fuel, St.fuelOK]; omega)).symm
 
-theorem remWith_post {s s' : St} {now : Int} {id : String} {b : Bool} {g : Nat} (h : WF s) (hne : NoneExpired s now)
+theorem remWith_post {s s' : St} {now : Int} {id : String} {b : Bool} {g : Nat} (h : WF s) (hne : NoneExpiredBut s id now)
     (hid : isVar id = false) (hr : s.remWith g id now = (s', .ok b)) :
     ∃ D, Cascaded s s' [id] D ∧ id ∉ keysOf s'.facts ∧ b = amHas s.facts id := by
   simp only [St.remWith] at hr
@@ -302,12 +310,12 @@ theorem remWith_post {s s' : St} {now : Int} {id : String} {b : Bool} {g : Nat} 
     obtain ⟨D, h1, h2, h3, _⟩ := (lpost now g).1 s id (h.cinv hne) hid s' b hr
     exact ⟨D, h1, h2, h3⟩
 
-theorem remWith_ok {s : St} {now : Int} {id : String} {g : Nat} (h : WF s) (hne : NoneExpired s now)
+theorem remWith_ok {s : St} {now : Int} {id : String} {g : Nat} (h : WF s) (hne : NoneExpiredBut s id now)
     (hid : isVar id = false) (hun : s.kind = .indexed → UnindexOK s) (hg : s.fuelOK ≤ g) :
     ∃ s' b, s.remWith g id now = (s', .ok b) := by
-  have hnf := remWith_ne_fuel h hne id hg
+  have hnf := remWith_ne_fuel h id hne hg
   cases hr : (s.remWith g id now).2 with
-  | ok b => exact ⟨_, b, pair_eta _ hr⟩
+  | ok b => exact ⟨_, b, st_pair_eta _ hr⟩
   | error e =>
     exfalso
     apply hnf
@@ -337,3 +345,60 @@ theorem unindexOK_of_check {s : St} (h : unindexOKB s = true) : UnindexOK s := b
   intro e he
   simp only [unindexOKB, List.all_eq_true] at h
   simpa using h e he
+
+/-! ## deletion triggered by expiry (`Get` of an expired fact) -/
+
+theorem getOK_expired {s : St} {id : String} {fact : Obj} {now : Int} (hwf : WF s)
+    (hg : amGet s.facts id = some fact) (hx : checkExpiration fact now = .ok true)
+    (hne : NoneExpiredBut s id now) (hun : s.kind = .indexed → UnindexOK s) :
+    ∃ s' b, s.remOK id now = (s', .ok b) ∧ s.getOK id now = (s', .error "notFound") := by
+  have hid : isVar id = false := hwf.ids (id, fact) (amGet_some_mem hg)
+  obtain ⟨s', b, hr⟩ := remWith_ok (g := s.fuelOK) hwf hne hid hun (Nat.le_refl _)
+  rw [← remOK_eq_remWith] at hr
+  refine ⟨s', b, hr, ?_⟩
+  simp only [St.getOK, hg, hx, hr]
+
+theorem get_eq_getOK_linear {s : St} {id : String} {now : Int} (hwf : WF s) (hk : s.kind = .linear)
+    (hne : NoneExpiredBut s id now) : s.get id now = s.getOK id now := by
+  have hrem := rem_eq_remOK_linear hwf hk id hne
+  simp only [St.rem, hk] at hrem
+  simp only [St.get, hk, St.lGet, St.getOK]
+  cases amGet s.facts id with
+  | none => rfl
+  | some fact =>
+    simp only
+    rcases checkExpiration fact now with e | b
+    · rfl
+    · cases b
+      · rfl
+      · simp only [hrem]
+        rcases s.remOK id now with ⟨s1, e | a⟩ <;> rfl
+
+def noneExpiredButB (s : St) (id : String) (now : Int) : Bool :=
+  s.facts.all (fun e => e.1 == id || (match checkExpiration e.2 now with | .ok false => true | _ => false))
+
+theorem noneExpiredBut_of_check {s : St} {id : String} {now : Int} (h : noneExpiredButB s id now = true) :
+    NoneExpiredBut s id now := by
+  intro e he hne
+  simp only [noneExpiredButB, List.all_eq_true] at h
+  have := h e he
+  simp only [Bool.or_eq_true, beq_iff_eq, hne, false_or] at this
+  split at this
+  · assumption
+  · cases this
+
+/-- the stored fact under `id` is expired at `now` -/
+def expiredB (s : St) (id : String) (now : Int) : Bool :=
+  match amGet s.facts id with
+  | some f => (match checkExpiration f now with | .ok true => true | _ => false)
+  | none => false
+
+theorem expired_of_check {s : St} {id : String} {now : Int} (h : expiredB s id now = true) :
+    ∃ fact, amGet s.facts id = some fact ∧ checkExpiration fact now = .ok true := by
+  simp only [expiredB] at h
+  split at h
+  · rename_i f hf
+    split at h
+    · rename_i hx; exact ⟨f, hf, hx⟩
+    · cases h
+  · cases h
